@@ -2,6 +2,7 @@ package main
 
 import (
 	"fmt"
+	"go/constant"
 	"go/token"
 	"go/types"
 	"strings"
@@ -775,7 +776,52 @@ func runC28Extra(c *Ctx) {
 }
 
 // runC28Second: rules added for the second list of independent mutants.
+// runC28Third: the default record key is substituted before the accumulator captures it; the
+// tree level is computed from the largest index (len-1), not from the count.
+func runC28Third(c *Ctx) {
+	const pkg = "icon/merkle/hexary"
+	if f := c.mustFn(pkg, "", "NewAccumulator"); f != nil {
+		def := ""
+		if o, ok := c.pkg(pkg).Types.Scope().Lookup("defaultAccumulatorKey").(*types.Const); ok {
+			def = constant.StringVal(o.Val())
+		}
+		n := 0
+		for _, st := range fieldStores([]*ssa.Function{f}, "accumulator", "accumulatorDataKey") {
+			n++
+			src := unwrap(st.Store.Val)
+			has := false
+			if phi, isPhi := src.(*ssa.Phi); isPhi {
+				for _, e := range phi.Edges {
+					if k, isK := e.(*ssa.Const); isK && k.Value != nil && k.Value.Kind() == constant.String && constant.StringVal(k.Value) == def {
+						has = true
+					}
+				}
+			}
+			c.check(def != "" && has, "C28.record-key", "the accumulator keeps the key with the default already substituted", st.Store.Pos(), "key = given ∨ default", "the accumulator keeps "+render(src)+": with an empty key the record is written under another key than the one it is loaded from, a reopened accumulator starts empty")
+		}
+		if n == 0 {
+			c.undecided("C28.record-key", "NewAccumulator", f.Pos(), "no store of the record key")
+		}
+	}
+	if f := c.mustFn(pkg, "", "LevelFromLen"); f != nil {
+		for _, cs := range c.calls(f, func(cc *ssa.CallCommon) bool {
+			cal := cc.StaticCallee()
+			return cal != nil && cal.Name() == "Len64"
+		}) {
+			_, a := callArgs(cs.Common())
+			bo, isB := unwrap(a[0]).(*ssa.BinOp)
+			okM := false
+			if isB {
+				k, isK := constInt(bo.Y)
+				okM = isK && ((bo.Op == token.SUB && k == 1) || (bo.Op == token.ADD && k == -1))
+			}
+			c.check(okM, "C28.level-of-len", "the level is the hex-digit count of the largest index (len-1)", cs.Pos(), render(a[0]), "the level is computed from "+render(a[0])+": a tree of exactly 16^k leaves gets one level too many and none of its leaves is provable")
+		}
+	}
+}
+
 func runC28Second(c *Ctx) {
+	runC28Third(c)
 	const pkg = "icon/merkle/hexary"
 	// (1) the single-entry shortcut applies to the top root only, in both places that fold the roots
 	for _, nm := range []string{"GetMerkleHeader", "Finalize"} {
